@@ -140,6 +140,11 @@ pub fn drive(d: &mut Driver)
 	}
 	d.phase("S-CHAR bytes + S-FRAG", jobs);
 
+	let nforms = c14::numeric_forms().len();
+	d.bound("numeric boundary forms x suffixes x followers x 2 contexts", json!([nforms, c14::NUMERIC_SUFFIXES.len(), c14::NUMERIC_FOLLOWERS.len()]));
+	let jobs: Vec<Value> = (0..nforms).step_by(8).map(|lo| json!({"space": "numeric", "lo": lo, "hi": (lo + 8).min(nforms)})).collect();
+	d.phase("numeric boundary forms", jobs);
+
 	let mut jobs = Vec::new();
 	for len in 0..=ltok
 	{
@@ -295,6 +300,26 @@ pub fn work(spec: &Value, w: &mut WorkerCtx)
 						break;
 					}
 					idx[k] = 0;
+				}
+			}
+		}
+		"numeric" =>
+		{
+			let forms = c14::numeric_forms();
+			for i in spec["lo"].as_u64().unwrap() as usize..spec["hi"].as_u64().unwrap() as usize
+			{
+				for suffix in c14::NUMERIC_SUFFIXES
+				{
+					for follower in c14::NUMERIC_FOLLOWERS
+					{
+						for (pre, post) in [("", ""), ("const K: u128 = ", ";")]
+						{
+							let text = format!("{pre}{}{}{}{post}", forms[i], suffix, follower);
+							w.result.transitions += 1;
+							let t = text.as_bytes();
+							judge(t, || json!({"text": text}), w, None);
+						}
+					}
 				}
 			}
 		}
